@@ -361,6 +361,18 @@ class Interp:
             d[l] = d.get(l, 0) - c
         return mk_lin(width(a), ca - cb, d)
 
+    def conc(self, st, t):
+        """A term whose value the path facts pin to one number becomes that constant."""
+        if t[0] in ('lin', 'bv'):
+            try:
+                c0, ts = lin_of(t)
+                lo, hi = st.know.interval(c0, ts)
+            except Unsupported:
+                return t
+            if lo == hi and 0 <= lo <= mask(width(t)):
+                return K(width(t), lo)
+        return t
+
     def diff_interval(self, st, a, b):
         """Interval of the exact integer a - b."""
         ca, ta = lin_of(a)
@@ -916,12 +928,16 @@ class Interp:
     def copy_from_slice(self, st, dst, src):
         if dst[0] != 'slice' or src[0] != 'slice':
             raise Unsupported('copy_from_slice on %s/%s' % (dst[0], src[0]))
-        dl, sl_ = self.slice_len(dst), self.slice_len(src)
+        dl, sl_ = self.conc(st, self.slice_len(dst)), self.conc(st, self.slice_len(src))
+        dst = ('slice', dst[1], self.conc(st, dst[2]), dst[3])
+        src = ('slice', src[1], self.conc(st, src[2]), src[3])
         if not self.need(st, mk_cmp('Eq', dl, sl_)):
             raise Panic('copy_len', 'copy_from_slice: source slice length (%s) does not match destination slice length (%s)' % (show_term(sl_), show_term(dl)))
         droot, dproj = dst[1]
         dobj = st.heap[droot[1]] if droot[0] == 'heap' else None
         if dobj is not None and dobj[0] == 'buf' and not dproj:
+            if is_const(dl) and dl[2] == 0:
+                return
             if is_const(dl) and dl[2] <= 64:
                 cells = tuple(self.read_elem(st, src[1], self.add(src[2], K(USIZE, i))) for i in range(dl[2]))
                 st.heap[droot[1]] = ('buf', dobj[1], dobj[2] + ((dst[2], dl, ('cells', cells)),))
